@@ -209,29 +209,33 @@ def plan_c18(tier):
     ws = []
     def R(args, prof="rel", par="even"):
         return W("hmc", ["recycle", "--parity", par] + args, profile=prof, crash_property="C18")
-    # closed graphs (fixpoint): small sets
-    ws.append(R(["--set", "small", "--k", "0", "--roundtrip", "--unsplit", "--periodic", "3"]))
-    ws.append(R(["--set", "small", "--k", "0", "--roundtrip", "--unsplit", "--periodic", "3"], par="odd"))
-    ws.append(R(["--set", "small", "--k", "1"]))
-    ws.append(R(["--set", "small", "--k", "1", "--roundtrip"], par="odd"))
-    ws.append(R(["--set", "small", "--k", "1", "--periodic", "3", "--periodic-only"]))
-    ws.append(R(["--set", "small", "--k", "2", "--periodic", "3", "--roundtrip", "--unsplit", "--periodic-only"]))
+    # closed graphs (fixpoint): small sets, one worker per initial capacity
+    for cap in ["0", "8", "16"]:
+        ws.append(R(["--set", "small", "--cap", cap, "--k", "0", "--roundtrip", "--unsplit", "--periodic", "3"]))
+        ws.append(R(["--set", "small", "--cap", cap, "--k", "0", "--roundtrip", "--unsplit", "--periodic", "3"], par="odd"))
+        ws.append(R(["--set", "small", "--cap", cap, "--k", "0", "--appends", "--roundtrip", "--unsplit", "--periodic", "2"]))
+        ws.append(R(["--set", "small", "--cap", cap, "--k", "1", "--appends", "--periodic", "2", "--periodic-only"], par="odd"))
+        ws.append(R(["--set", "small", "--cap", cap, "--k", "1"]))
+        ws.append(R(["--set", "small", "--cap", cap, "--k", "1", "--roundtrip"], par="odd"))
+        ws.append(R(["--set", "small", "--cap", cap, "--k", "1", "--periodic", "3", "--periodic-only"]))
+        ws.append(R(["--set", "small", "--cap", cap, "--k", "2", "--periodic", "3", "--roundtrip", "--unsplit", "--periodic-only"]))
     # threshold sets (original-capacity logic): periodic enumeration in quick, fixpoint in thorough
     for st in ["t1k", "t2k", "t64k"]:
         ws.append(R(["--set", st, "--k", "0", "--roundtrip", "--unsplit", "--periodic", "2", "--rounds", "40", "--periodic-only"]))
         ws.append(R(["--set", st, "--k", "1", "--periodic", "2", "--rounds", "40", "--periodic-only"]))
+        ws.append(R(["--set", st, "--k", "0", "--appends", "--periodic", "2", "--rounds", "40", "--periodic-only"]))
     if tier == "thorough":
-        ws.append(R(["--set", "small", "--k", "2", "--max-states", "3000000"]))
-        ws.append(R(["--set", "small", "--k", "1", "--unsplit", "--max-states", "3000000"]))
-        ws.append(R(["--set", "t64k", "--k", "0", "--max-states", "400000"]))
-        ws.append(R(["--set", "t64k", "--k", "1", "--max-states", "600000"]))
-        ws.append(R(["--set", "t1k", "--k", "0", "--max-states", "2000000"]))
-        ws.append(R(["--set", "t2k", "--k", "0", "--max-states", "2000000"]))
+        ws.append(R(["--set", "small", "--k", "2", "--max-states", "3000000", "--max-seconds", "3000"]))
+        ws.append(R(["--set", "small", "--k", "1", "--unsplit", "--max-states", "3000000", "--max-seconds", "3000"]))
+        ws.append(R(["--set", "t64k", "--k", "0", "--max-states", "400000", "--max-seconds", "3000"]))
+        ws.append(R(["--set", "t64k", "--k", "1", "--max-states", "600000", "--max-seconds", "3000"]))
+        ws.append(R(["--set", "t1k", "--k", "0", "--max-states", "2000000", "--max-seconds", "3000"]))
+        ws.append(R(["--set", "t2k", "--k", "0", "--max-states", "2000000", "--max-seconds", "3000"]))
         ws.append(R(["--set", "small", "--k", "0", "--roundtrip", "--unsplit", "--periodic", "4"], prof="dbg"))
         ws.append(R(["--set", "small", "--k", "1", "--periodic", "4", "--periodic-only"]))
     return dict(
         workers=ws, level="model_checking", distinct_is_max=False,
-        rule="the recycle protocol as a nondeterministic transition system over the real crate (refill = reserve(n)+append, consume by split/split_to/advance/truncate/clear with or without freeze, retention window of k parts, "
+        rule="the recycle protocol as a nondeterministic transition system over the real crate (refill = reserve(n)+append, or append through Extend with exact / zero lower size hints, put_slice, put_bytes, the chunk_mut/advance_mut protocol or resize; consume by split/split_to/advance/truncate/clear with or without freeze, retention window of k parts, "
              "freeze->try_into_mut round trip, unsplit variants), explored breadth-first over canonical states (hook descriptor of the recycling handle + which block each retained part pins) TO FIXPOINT: a closed graph covers "
              "histories of every length; oracles: live heap bytes <= explicit bound in every state, (k=0) no byte-buffer-allocating transition on a cycle (Tarjan SCC), reserve on an empty sole owner of a large-enough buffer touches no allocator. "
              "Plus exhaustive enumeration of all periodic schedules of period <= 3 (4 thorough) over the alphabet for 400 rounds. states = canonical states; distinct_nontrivial = states",
